@@ -1143,3 +1143,48 @@ impl<'de> DeserializeSeed<'de> for DeserializeTextResource {
             .map_err(|e| -> D::Error { serde::de::Error::custom(e) })
     }
 }
+
+/// Verification hooks (compiled only with `--cfg stam_verif`): read-only dumps of private indices
+/// as plain sorted tuples.
+#[cfg(stam_verif)]
+mod verif_hooks {
+    use super::*;
+    impl TextResource {
+        /// position index: (charpos, bytepos, begin2end [(end, handle)], end2begin [(begin, handle)])
+        pub fn verif_dump_positionindex(
+            &self,
+        ) -> Vec<(usize, usize, Vec<(usize, usize)>, Vec<(usize, usize)>)> {
+            self.positionindex
+                .0
+                .iter()
+                .map(|(pos, item)| {
+                    (
+                        *pos,
+                        item.bytepos,
+                        item.begin2end.iter().map(|(e, h)| (*e, h.as_usize())).collect(),
+                        item.end2begin.iter().map(|(b, h)| (*b, h.as_usize())).collect(),
+                    )
+                })
+                .collect()
+        }
+        /// byte -> charpos map as sorted pairs
+        pub fn verif_dump_byte2charmap(&self) -> Vec<(usize, usize)> {
+            self.byte2charmap.iter().map(|(b, c)| (*b, *c)).collect()
+        }
+        /// slot layout of the text selection store: (handle, begin, end) or None for a tombstone
+        pub fn verif_dump_textselections(&self) -> Vec<Option<(usize, usize, usize)>> {
+            self.textselections
+                .iter()
+                .map(|slot| {
+                    slot.as_ref().map(|t| {
+                        (
+                            t.handle().map(|h| h.as_usize()).unwrap_or(usize::MAX),
+                            t.begin(),
+                            t.end(),
+                        )
+                    })
+                })
+                .collect()
+        }
+    }
+}
